@@ -177,7 +177,7 @@ fn closed_pipe_writer() -> Result<std::fs::File, String> {
     Ok(unsafe { std::fs::File::from_raw_fd(fds[1]) })
 }
 
-fn bin_path() -> PathBuf {
+pub fn bin_path() -> PathBuf {
     verif_root().join("target/jawk-bin/release/jawk")
 }
 
